@@ -62,6 +62,7 @@ BITS = {"i8": 8, "i16": 16, "i32": 32, "i64": 64}
 CPP_INT = {"i8": "int8_t", "i16": "int16_t", "i32": "int32_t", "i64": "int64_t"}
 JAVA_BOX = {"i8": "Byte", "i16": "Short", "i32": "Integer", "i64": "Long", "bool": "Boolean"}
 STRINGS = ["", "a", "ab", "abc", "b", "B", "a b", "zz", "Ab"]
+FLOATS = [0.0, -0.0, 1.5, -2.25, 1024.0]      # exactly representable; NaN is outside any order
 ENUM_ITEMS = ["red", "green_light", "blue"]
 
 PRELUDE = """col = enum { red; green_light; blue; }
@@ -91,6 +92,8 @@ def parse_type(t: str):
         return {"k": "int", "w": t, "opt": opt}
     if t in ("bool", "string", "binary"):
         return {"k": t, "opt": opt}
+    if t in ("f32", "f64"):
+        return {"k": "float", "w": t, "opt": opt}
     if t == "col":
         return {"k": "enum", "opt": opt}
     if t in INNER:
@@ -108,6 +111,8 @@ def draw(r: random.Random, ty, pools, depth=0):
         return r.choice([lo, hi, -1, 0, 1, 2, r.randint(lo, hi), 7])
     if k == "bool":
         return r.random() < 0.5
+    if k == "float":
+        return r.randrange(len(FLOATS))
     if k == "string":
         return r.choice(STRINGS)
     if k == "enum":
@@ -123,7 +128,8 @@ def draw(r: random.Random, ty, pools, depth=0):
 
 def cpp_type(ty, names, inner=False):
     k = ty["k"]
-    base = {"int": lambda: CPP_INT[ty["w"]], "bool": lambda: "bool", "string": lambda: "std::string", "enum": lambda: names["col"]["cpp_typename"],
+    base = {"int": lambda: CPP_INT[ty["w"]], "bool": lambda: "bool", "float": lambda: "float" if ty["w"] == "f32" else "double",
+            "string": lambda: "std::string", "enum": lambda: names["col"]["cpp_typename"],
             "record": lambda: names[ty["name"]]["cpp_typename"], "binary": lambda: "std::vector<uint8_t>",
             "list": lambda: f"std::vector<{cpp_type({**ty['elem'], 'opt': False}, names)}>"}[k]()
     return f"std::optional<{base}>" if ty["opt"] and not inner else base
@@ -139,6 +145,8 @@ def cpp_lit(ty, v, names, pools, top=True):
         lit = f"static_cast<{CPP_INT[ty['w']]}>({s})"
     elif k == "bool":
         lit = "true" if v else "false"
+    elif k == "float":
+        lit = repr(FLOATS[v]) + ("f" if ty["w"] == "f32" else "")
     elif k == "string":
         lit = f'std::string("{v}")'
     elif k == "enum":
@@ -164,6 +172,8 @@ def java_type(ty, names, boxed=False):
         return JAVA_BOX[ty["w"]] if (boxed or ty["opt"]) else {"i8": "byte", "i16": "short", "i32": "int", "i64": "long"}[ty["w"]]
     if k == "bool":
         return "Boolean" if (boxed or ty["opt"]) else "boolean"
+    if k == "float":
+        return ("Float" if ty["w"] == "f32" else "Double") if (boxed or ty["opt"]) else ("float" if ty["w"] == "f32" else "double")
     if k == "string":
         return "String"
     if k == "enum":
@@ -188,6 +198,9 @@ def java_lit(ty, v, names, pools, boxed=False):
         return f"new {JAVA_BOX[w]}({prim})" if boxed else prim
     if k == "bool":
         return f"new Boolean({'true' if v else 'false'})" if boxed else ("true" if v else "false")
+    if k == "float":
+        prim = repr(FLOATS[v]) + ("f" if ty["w"] == "f32" else "d")
+        return f"new {'Float' if ty['w'] == 'f32' else 'Double'}({prim})" if boxed else prim
     if k == "string":
         return f'new String("{v}")'
     if k == "enum":
@@ -213,6 +226,8 @@ def dv(ty, v, atoms):
         return {"i": [BITS[ty["w"]], v]}
     if k == "bool":
         return {"b": v}
+    if k == "float":
+        return {"a": float_atom(ty["w"], FLOATS[v])}
     if k == "string":
         return {"s": v}
     if k == "enum":
@@ -225,9 +240,23 @@ def dv(ty, v, atoms):
         return {"l": [dv({**ty["elem"], "opt": False}, x, atoms) for x in v]}
 
 
+def float_atom(w, x):
+    """[rank, hash, string form]: position in the numeric order (0.0 and -0.0 coincide: `==` holds), pydjinni's hash expression
+    (`Float.floatToIntBits(x)` / `(int)(bits ^ (bits >>> 32))` of `Double.doubleToLongBits(x)`), Java string conversion"""
+    import struct
+    rank = sorted(set(FLOATS)).index(x + 0.0 if x != 0 else 0.0)
+    if w == "f32":
+        h = struct.unpack(">i", struct.pack(">f", x))[0]
+    else:
+        bits = struct.unpack(">Q", struct.pack(">d", x))[0]
+        h = (bits ^ (bits >> 32)) & 0xFFFFFFFF
+        h = h - (1 << 32) if h >= (1 << 31) else h
+    return [rank, h, repr(x)]
+
+
 def java_ref(ty) -> bool:
     """`type_def.java.typename == type_def.java.boxed`"""
-    return ty["k"] not in ("int", "bool")
+    return ty["k"] not in ("int", "bool", "float")
 
 
 # ---------------------------------------------------------------------------------------------
@@ -250,6 +279,8 @@ def clauses_of(rec) -> list[str]:
         cl.append("ord-optional")
     if rec["eq"] and any(t["k"] == "record" and not INNER[t["name"]]["eq"] for t in tys):
         cl.append("eq-over-non-eq-record")
+    if rec["eq"] and any(t["k"] == "float" for t in tys):
+        cl.append("float-field")
     if rec["ord"] and any(t["k"] == "record" and not INNER[t["name"]]["ord"] for t in tys):
         cl.append("ord-over-non-ord-record")
     return cl
@@ -279,6 +310,10 @@ def make_record(r: random.Random, idx: int, mode: str):
         types = [r.choice(["i32", "string", "col"]) for _ in range(n)]
         types[r.randrange(n)] = "in_c"
         eq, ordd = True, False
+    elif mode == "finding-float":
+        types = [r.choice(["i32", "string"]) for _ in range(n)]
+        types[r.randrange(n)] = r.choice(["f32", "f64"])
+        eq, ordd = True, r.random() < 0.5
     elif mode == "finding-optional-binary":
         types = [r.choice(["i32", "string"]) for _ in range(n)]
         types[r.randrange(n)] = "binary?"
@@ -301,6 +336,9 @@ def draw_tuples(r: random.Random, rec, pools, m: int):
     if any(t["opt"] for t in tys):              # every optional absent / present, other fields as in the base tuple
         tuples.append([None if t["opt"] else x for t, x in zip(tys, base)])
         tuples.append([draw(r, {**t, "opt": False}, pools) if t["opt"] else x for t, x in zip(tys, base)])
+    if any(t["k"] == "float" for t in tys):     # 0.0 and -0.0 in otherwise equal objects
+        tuples.append([0 if t["k"] == "float" else x for t, x in zip(tys, base)])
+        tuples.append([1 if t["k"] == "float" else x for t, x in zip(tys, base)])
     while len(tuples) < m:
         if r.random() < 0.6:
             t = list(r.choice(tuples))
@@ -477,17 +515,18 @@ def needs(rec):
 
 
 def behaviour_idl(records):
-    return PRELUDE + "".join(render_record(rec) for rec in records)
+    return PRELUDE + "".join(render_record(rec) for rec in records if rec["name"] not in INNER)
 
 
 def behaviour_options(ctx, tag):
     return glue.base_options(ctx.tmp / f"b_{tag}" / "out", java={"string_serialization": True})
 
 
-def behaviour(ctx, groups):
-    """groups: [(tag, records)] — generate all programs (process pool), compile and run all drivers (one pool), evaluate"""
+def behaviour(ctx, groups, fixed=None):
+    """groups: [(tag, records)] — generate all programs (process pool), compile and run all drivers (one pool), evaluate.
+    `fixed` = {"pools", "tuples"} replays recorded values instead of drawing them."""
     results = glue.generate_many(ctx.tmp / "bgen", [(behaviour_idl(recs), behaviour_options(ctx, tag)) for tag, recs in groups], targets=("cpp", "java"))
-    prepared = [prepare(ctx, recs, tag, res) for (tag, recs), res in zip(groups, results)]
+    prepared = [prepare(ctx, recs, tag, res, fixed) for (tag, recs), res in zip(groups, results)]
     jobs = [j for p in prepared for j in p[0]]
     observations = glue.parallel(run_record, jobs, workers=16)
     breaks, k = [], 0
@@ -497,7 +536,7 @@ def behaviour(ctx, groups):
     return breaks
 
 
-def prepare(ctx, records, tag, res):
+def prepare(ctx, records, tag, res, fixed=None):
     r = random.Random(f"{ctx.seed}/c09/values/{tag}")
     idl = behaviour_idl(records)
     pdir = ctx.tmp / f"b_{tag}"
@@ -516,6 +555,8 @@ def prepare(ctx, records, tag, res):
             if tup not in pool:
                 pool.append(tup)
         pools[nm] = pool
+    if fixed:
+        pools = fixed["pools"]
     atoms = {"col_java_items": names["col"]["java_items"]}
     for nm, inner in INNER.items():
         rec = {"name": nm, "fields": inner["fields"], "eq": inner["eq"], "ord": inner["ord"]}
@@ -531,14 +572,17 @@ def prepare(ctx, records, tag, res):
         atoms[nm] = [[rank[i], ans["hash"][i] if inner["eq"] else 0, ans["str"][i]] for i in range(m)]
     # all records of the program, the nested ones included (they are records deriving eq/ord themselves)
     todo = [{"name": nm, "fields": inner["fields"], "eq": inner["eq"], "ord": inner["ord"]} for nm, inner in INNER.items() if inner["eq"] or inner["ord"]]
-    todo = (todo if tag.endswith("0") else []) + records
+    todo = (todo if tag.endswith("0") else []) + [rec for rec in records if rec["name"] not in INNER]
+    if not todo:     # replay of one of the nested record types
+        todo = [rec for rec in records]
+    atoms["_pools"] = pools
     jobs, metas = [], []
     inc = glue.cpp_support_includes()
     for k, rec in enumerate(todo):
         info = infos[rec["name"]]
         n = len(rec["fields"])
         dec = ctx.driver.one({"op": "c09.decision", "eq": rec["eq"], "ord": rec["ord"], "nFields": n, "cppStringSer": False, "javaStringSer": True})
-        tuples = draw_tuples(r, rec, pools, ctx.n(7, 9))
+        tuples = fixed["tuples"] if fixed else draw_tuples(r, rec, pools, ctx.n(7, 9))
         files = {}
         for dn in dict.fromkeys(["col"] + needs(rec) + [rec["name"]]):
             for sub in ("cpp", "java"):
@@ -574,7 +618,7 @@ def evaluate(ctx, metas, observations, atoms):
         for _, t in rec["fields"]:
             ctx.stat("field_" + t)
         ctx.stat("deriving_" + "+".join(d for d in ("eq", "ord") if rec[d]))
-        replay = {"input": {"records": [rec], "tuples": tuples}, "idl": PRELUDE + render_record(rec), "clauses": cl,
+        replay = {"input": {"records": [rec], "tuples": tuples, "pools": atoms["_pools"]}, "idl": PRELUDE + render_record(rec), "clauses": cl,
                   "notes": obs["notes"]}
         # --- judges' verdict on the generated code itself
         fails = []
@@ -631,6 +675,8 @@ def failure_key(f, clauses):
         return "java:ord-optional-null"
     if "eq-over-non-eq-record" in clauses and ((t == "cpp" and ("does not compile" in why or "driver crashed" in why)) or (t == "java" and ("equals" in why or "hash" in why))):
         return "eq-over-non-eq-record"
+    if t == "java" and "float-field" in clauses and "equal objects have different hash codes" in why:
+        return "java:float-signed-zero-hash"
     return f"{t}:" + re.sub(r"[^a-z=<>!]+", "-", why.split("(")[0].lower()).strip("-")
 
 
@@ -651,7 +697,16 @@ def observe_decisions(info):
 
     def anyseq(tl, *seq):
         return any(has_seq(t, *seq) for t in tl)
+    fmt = None
+    for t in src:
+        for i in range(len(t) - 5):
+            if [x[1] for x in t[i:i + 4]] == ["std", "::", "format", "("] and t[i + 4][0] == "str":
+                end = glue._matching(t, i + 3, "(", ")")
+                rest = t[i + 5:end]
+                args = ["".join(x[1] for x in a) for a in glue._split_top(rest[1:])] if rest and rest[0][1] == "," else []
+                fmt = {"format": t[i + 4][1][1:-1], "args": [a for a in args if a]}
     return {
+        "cppFormat": fmt,
         "cppWritesSource": bool(src),
         "cppDeclaresEq": anyseq(hdr, "operator", "=="), "cppDeclaresOrd": anyseq(hdr, "operator", "<"),
         "cppDefinesEq": anyseq(src, "operator", "=="), "cppDefinesOrd": anyseq(src, "operator", "<"),
@@ -662,7 +717,8 @@ def observe_decisions(info):
     }
 
 
-def decisions(ctx):
+def decisions(ctx, only=None):
+    """`only` = {"rec", "targets", "css", "jss"}: just that combination (replay)"""
     breaks = []
     combos = list(itertools.product([False, True], [False, True], [0, 1, 3], [False, True], [False, True], ["", " +cpp", " +java"]))
     progs = []
@@ -671,10 +727,13 @@ def decisions(ctx):
         for k, (eq, ordd, n, css2, jss2, tg) in enumerate(combos):
             if css2 != css or jss2 != jss:
                 continue
+            if only and (only["rec"]["name"] != f"d{k}" or only["css"] != css or only["jss"] != jss):
+                continue
             recs.append(({"name": f"d{k}", "fields": list(zip(FIELD_NAMES, ["i32", "string", "i16"][:n])), "eq": eq, "ord": ordd}, tg))
         # split so that the pool has something to do
         for half in (recs[::2], recs[1::2]):
-            progs.append((css, jss, half))
+            if half:
+                progs.append((css, jss, half))
     jobs = []
     for pi, (css, jss, recs) in enumerate(progs):
         idl = "".join(render_record(rec, tg) for rec, tg in recs)
@@ -685,7 +744,10 @@ def decisions(ctx):
             raise RuntimeError(f"decision program rejected: {res}")
         reqs = [{"op": "c09.decision", "eq": rec["eq"], "ord": rec["ord"], "nFields": len(rec["fields"]), "cppStringSer": css,
                  "javaStringSer": jss, "cppBase": tg == " +cpp"} for rec, tg in recs]
-        for (rec, tg), info, model in zip(recs, res["decls"], ctx.driver.batch(reqs)):
+        freqs = [{"op": "c09.eval", "typename": info.get("type_names", {}).get("cpp_typename", "?"), "values": [],
+                  "fields": fields_json(rec, info) if info.get("names") else []} for (rec, tg), info in zip(recs, res["decls"])]
+        fmts = ctx.driver.batch(freqs)
+        for (rec, tg), info, model, fm in zip(recs, res["decls"], ctx.driver.batch(reqs), fmts):
             ctx.count(key=("decision", rec["eq"], rec["ord"], len(rec["fields"]), css, jss, tg), nontrivial=True,
                       sample={"idl": render_record(rec, tg), "cpp.string_serialization": css})
             ctx.stat("decision_cases")
@@ -697,6 +759,15 @@ def decisions(ctx):
                 # `+java` only renames the Java class (…Base); the decisions are the same
                 pass
             diff = {k: (obs[k], model[k]) for k in model if obs[k] != model[k]}
+            if obs["cppDefinesToString"]:
+                want = {"format": fm["cppFormat"], "args": [f"::pydjinni::format(value.{a})" for a in fm["cppFormatArgs"]]}
+                if obs["cppFormat"] != want:
+                    diff["cppFormat"] = (obs["cppFormat"], want)
+                missing = [a for a in fm["cppFormatArgs"] if obs["cppFormat"] is None or (a + "={}") not in obs["cppFormat"]["format"]
+                           or f"::pydjinni::format(value.{a})" not in obs["cppFormat"]["args"]]
+                if missing:
+                    report(ctx, "cpp:to_string-misses-field", "the C++ string form does not mention every field",
+                           {"input": {"decision": {"rec": rec, "targets": tg, "css": css, "jss": jss}}, "idl": render_record(rec, tg), "missing": missing, "observed": obs["cppFormat"]})
             if diff:
                 breaks.append({"why": "emitted operators / files differ from the model: " + ",".join(diff), "idl": render_record(rec, tg),
                                "cpp.string_serialization": css, "java.string_serialization": jss, "diff": diff})
@@ -733,7 +804,8 @@ def build_records(ctx):
     modes = []
     for i in range(n):
         modes.append(["eq", "eqord", "ord", "eq", "eqord", "eq"][i % 6])
-    modes += ["finding-ord-optional", "finding-ord-bool", "finding-eq-non-eq", "finding-optional-binary"] * ctx.n(1, 4)   # the last one: fixed, kept as a regression shape
+    # `finding-optional-binary` is fixed; kept as a regression shape
+    modes += ["finding-ord-optional", "finding-ord-bool", "finding-eq-non-eq", "finding-float", "finding-optional-binary"] * ctx.n(1, 4)   # the last one: fixed, kept as a regression shape
     recs = [make_record(r, i, m) for i, m in enumerate(modes)]
     per = ctx.n(11, 25)
     return [recs[i:i + per] for i in range(0, len(recs), per)]
@@ -781,9 +853,10 @@ def replay(ctx, body):
     inp = body["input"]
     before = len(ctx.violations) + sum(ctx.known_hits.values())
     if "decision" in inp:
-        breaks = decisions(ctx)
+        breaks = decisions(ctx, only=inp["decision"])
     else:
         recs = [{"name": e["name"], "fields": [tuple(x) for x in e["fields"]], "eq": e["eq"], "ord": e["ord"]} for e in inp["records"]]
-        breaks = behaviour(ctx, [("replay1", recs)])
+        fixed = {"pools": inp["pools"], "tuples": inp["tuples"]} if "pools" in inp else None
+        breaks = behaviour(ctx, [("replay1", recs)], fixed)
     print(json.dumps({"breaks": breaks[:2], "violations": ctx.violations[:5]}, indent=1)[:3000])
     return len(ctx.violations) + sum(ctx.known_hits.values()) == before and not breaks
